@@ -631,7 +631,7 @@ keyword(struct token *tok)
 		mid = (low + high) / 2;
 		cmp = strcmp(tok->lit, keywords[mid].name);
 		if (cmp == 0) {
-			free(tok->lit);
+			/* the spelling is shared with the macro definition the token may come from */
 			tok->kind = keywords[mid].value;
 			tok->lit = NULL;
 			break;
